@@ -148,17 +148,26 @@ impl<'input> Scalar<'input> {
     /// Returns the parsed [`Scalar`].
     #[must_use]
     pub fn parse_from_cow(v: Cow<'input, str>) -> Self {
+        // `from_str_radix` and `parse` accept a leading sign of their own, which the core schema
+        // does not allow after a radix prefix or after another sign (`0x-1`, `0o+7`, `+-1`).
+        let unsigned = |number: &str| !number.starts_with(['+', '-']);
         if let Some(number) = v.strip_prefix("0x") {
-            if let Ok(i) = i64::from_str_radix(number, 16) {
-                return Self::Integer(i);
+            if unsigned(number) {
+                if let Ok(i) = i64::from_str_radix(number, 16) {
+                    return Self::Integer(i);
+                }
             }
         } else if let Some(number) = v.strip_prefix("0o") {
-            if let Ok(i) = i64::from_str_radix(number, 8) {
-                return Self::Integer(i);
+            if unsigned(number) {
+                if let Ok(i) = i64::from_str_radix(number, 8) {
+                    return Self::Integer(i);
+                }
             }
         } else if let Some(number) = v.strip_prefix('+') {
-            if let Ok(i) = number.parse::<i64>() {
-                return Self::Integer(i);
+            if unsigned(number) {
+                if let Ok(i) = number.parse::<i64>() {
+                    return Self::Integer(i);
+                }
             }
         }
         match &*v {
